@@ -108,6 +108,20 @@ def build_cases(tier):
     C.append(T('local_types_in_generic_funcs', '//go:noinline\nfunc wrap[T any](v T) interface{} {\n\ttype local struct{ v T }\n\treturn local{v}\n}\n//go:noinline\nfunc wrap2[T any](v T) interface{} {\n\ttype local struct{ v T }\n\treturn local{v}\n}\n//go:noinline\nfunc count[T comparable](xs ...T) int {\n\ttype key struct{ k T }\n\tm := map[key]int{}\n\tfor _, x := range xs {\n\t\tm[key{x}]++\n\t}\n\treturn len(m)\n}\n',
                V + 'println("r", wrap(a) == wrap(a), wrap(a) == wrap(b), wrap(a) == wrap(int8(a)), wrap(a) == wrap2(a), wrap("s") == wrap("s"), count(a, b, a), count("x", "y"), count(int8(a), int8(b)))',
                lambda inp: ok([('r', ['true', '(= in_0 in_1)', 'false', 'false', 'true', '(ite (= in_0 in_1) 1 2)', '2', '(ite (= (mod (+ in_0 128) 256) (mod (+ in_1 128) 256)) 1 2)'])])))
+    # ---- generic types declared inside generic functions, mentioning sibling local types (each instance of the function has its own)
+    NG = ('//go:noinline\nfunc index[T comparable](x, y T) (int, bool, bool) {\n\ttype stage struct{ value T }\n\ttype labelled[U any] struct {\n\t\tst    stage\n\t\tlabel U\n\t}\n'
+          '\tseen := map[interface{}]int{}\n\tseen[labelled[string]{stage{x}, "x"}]++\n\tseen[labelled[string]{stage{y}, "x"}]++\n'
+          '\tvar p interface{} = labelled[string]{stage{x}, "x"}\n\tvar q interface{} = labelled[string]{stage{x}, "x"}\n\tvar r interface{} = labelled[string]{stage{y}, "x"}\n\treturn len(seen), p == q, p == r\n}\n'
+          '//go:noinline\nfunc chainOf[T any](v T, n int) int {\n\ttype node[U any] struct {\n\t\tval  U\n\t\torig T\n\t\tnext *node[U]\n\t}\n\tvar head *node[int]\n\tfor i := 0; i < n; i++ {\n\t\thead = &node[int]{i, v, head}\n\t}\n\tc := 0\n\tfor p := head; p != nil; p = p.next {\n\t\tc += p.val + 1\n\t}\n\treturn c\n}\n')
+    C.append(T('nested_generic_types_in_generic_funcs', NG, V + 'n1, s1, o1 := index(int64(a)<<36, int64(b)<<36)\nn2, s2, o2 := index("one", "two")\nn3, s3, o3 := index([2]int{a, 1}, [2]int{b, 1})\nn4, s4, o4 := index[interface{}](a, b)\nn5, s5, o5 := index[interface{}](a, int8(a))\n'
+               'println("i", n1, s1, o1, n2, s2, o2, n3, s3, o3, n4, s4, o4, n5, s5, o5, chainOf("s", 3), chainOf(int64(a), 2))',
+               lambda inp: ok([('i', ['(ite (= in_0 in_1) 1 2)', 'true', '(= in_0 in_1)', '2', 'true', 'false', '(ite (= in_0 in_1) 1 2)', 'true', '(= in_0 in_1)', '(ite (= in_0 in_1) 1 2)', 'true', '(= in_0 in_1)', '2', 'true', 'false', '6', '3'])])))
+    # ---- anonymous composite types built from a type declared inside a generic function: one per instance of the function
+    AC = ('//go:noinline\nfunc comp[T comparable](v T, n int) interface{} {\n\ttype S struct{ v T }\n\tswitch n {\n\tcase 0:\n\t\treturn []S{{v}}\n\tcase 1:\n\t\treturn [1]S{{v}}\n\tcase 2:\n\t\treturn struct{ s S }{S{v}}\n\tcase 3:\n\t\treturn map[S]bool{{v}: true}\n\tcase 4:\n\t\treturn func(S) []S { return nil }\n\t}\n\treturn (chan S)(nil)\n}\n'
+          '//go:noinline\nfunc sameType(a, b interface{}) (r int) {\n\tdefer func() {\n\t\tif recover() != nil {\n\t\t\tr = 2\n\t\t}\n\t}()\n\tif a == b {\n\t\treturn 1\n\t}\n\treturn 0\n}\n'
+          '//go:noinline\nfunc fill[T any](v T, n int) int {\n\ttype S struct{ v T }\n\txs := make([]S, 0, 1)\n\tfor i := 0; i < n; i++ {\n\t\txs = append(xs, S{v})\n\t}\n\tvar i interface{} = xs\n\t_, ok := i.([]S)\n\t_, bad := i.([]T)\n\tif !ok || bad {\n\t\treturn -1\n\t}\n\treturn len(xs)\n}\n')
+    C.append(T('anonymous_types_over_nested_types', AC, V + 'n := NondetRange(2, 0, 5)\nprintln("c", sameType(comp(a, n), comp(b, n)), sameType(comp(a, n), comp(int64(a), n)), sameType(comp("s", n), comp("s", n)), sameType(comp("s", n), comp(a, n)), fill(a, 2), fill("s", 3), fill(int8(b), 1))',
+               lambda inp: sel(2, [[('c', [x, '0', y, '0', '2', '3', '1'])] for x, y in (('2', '2'), ('(ite (= in_0 in_1) 1 0)', '1'), ('(ite (= in_0 in_1) 1 0)', '1'), ('2', '2'), ('2', '2'), ('1', '1'))])))
     # ---- the type parameter itself as type-switch case, assertion target, conversion target and composite element
     TP = 'type pr struct{ a, b int }\n//go:noinline\nfunc pick[T any](v interface{}, d T) T {\n\tswitch x := v.(type) {\n\tcase T:\n\t\treturn x\n\tcase []T:\n\t\treturn x[0]\n\tcase map[string]T:\n\t\treturn x["k"]\n\tcase *T:\n\t\treturn *x\n\t}\n\treturn d\n}\n//go:noinline\nfunc must[T any](v interface{}) (T, bool) {\n\tx, ok := v.(T)\n\treturn x, ok\n}\n//go:noinline\nfunc total[T ~int | ~int8](vs ...interface{}) T {\n\tvar t T\n\tfor _, v := range vs {\n\t\tswitch x := v.(type) {\n\t\tcase T:\n\t\t\tt += x + 1\n\t\tcase int16:\n\t\t\tt += T(x)\n\t\t}\n\t}\n\treturn t\n}\n'
     C.append(T('type_param_switch_assert', TP, V + 'i8 := int8(a)\nprintln("p", pick[int](a, -1)+1, pick[int](int8(1), -1), pick[int]([]int{b}, -1), pick[int](map[string]int{"k": a}, -1), pick[int](&b, -1), pick[int8](i8, 0), pick[string]("xy", "")+"z" == "xyz", pick[pr](pr{a, b}, pr{}).b, pick[[2]int]([2]int{a, b}, [2]int{})[1], pick[float64](1.5, 0) == 1.5, pick[bool](true, false))\n'
@@ -135,6 +149,11 @@ def build_cases(tier):
                lambda inp: ok([('r', ['in_1', W('int8', 'in_0'), W('int16', '(+ in_0 in_1 1)'), '44', '9', 'in_1', W('int8', '(* 2 (- (mod (+ in_0 128) 256) 128))'), '9',
                                       '(let ((ci (ite (or (= in_2 0) (= in_2 1) (= in_2 4)) 0 (ite (= in_2 5) 2 1))) (cj (ite (or (= in_3 0) (= in_3 1) (= in_3 4)) 0 (ite (= in_3 5) 2 1)))) (= ci cj))'])]),
                files={'sub/sub.go': SUB}))
+    # an instance whose type argument is declared in a package set up later than the generic type's own package: comparability and map keys
+    # are those of the instantiated type
+    XC = 'import "verifprog/sub"\ntype withSlice struct{ s []int }\ntype plain struct{ n int }\n//go:noinline\nfunc cmpI(x, y interface{}) (r int) {\n\tdefer func() {\n\t\tif recover() != nil {\n\t\t\tr = 2\n\t\t}\n\t}()\n\tif x == y {\n\t\treturn 1\n\t}\n\treturn 0\n}\n'
+    C.append(T('cross_package_instance_comparability', XC, V + 'm := map[interface{}]int{}\nm[sub.Box[plain]{plain{a}}]++\nm[sub.Box[plain]{plain{b}}]++\nprintln("c", cmpI(sub.Box[withSlice]{}, sub.Box[withSlice]{}), cmpI(sub.Box[plain]{plain{a}}, sub.Box[plain]{plain{b}}), cmpI(sub.Box[[1]withSlice]{}, sub.Box[[1]withSlice]{}), cmpI(sub.Wrap(withSlice{}), sub.Wrap(withSlice{})), cmpI(sub.Wrap(plain{a}), sub.Box[plain]{plain{a}}), len(m))',
+               lambda inp: ok([('c', ['2', '(ite (= in_0 in_1) 1 0)', '2', '2', '1', '(ite (= in_0 in_1) 1 2)'])]), files={'sub/sub.go': SUB}))
     # ---- known finding: explicit package-qualified instantiation with a type built from the caller's type parameter
     C.append(T('explicit_qualified_instantiation_in_generic', 'import "verifprog/sub"\n//go:noinline\nfunc viaExplicit[T any](x T) interface{} { return sub.Wrap[[]T]([]T{x}) }\n', V + '_, isB := viaExplicit(a).(sub.Box[[]int])\nprintln("r", isB)',
                lambda inp: ok([('r', ['true'])]), files={'sub/sub.go': SUB}))
